@@ -953,7 +953,7 @@ def list_comp(E, e, fr, lazy=False):
         if E.feasible(z3.Not(t)):
             E.pc, E._pc_ids = pc_saved
             _restore(fr, saved)
-            raise Unsupported('comprehension filter not provably true over a symbolic-length sequence')
+            return abstract_filtered_comp(E, e, g, fr, sq, elem, saved)
     E.pc, E._pc_ids = pc_saved
     locs_at = dict(fr.locals)
     _restore(fr, saved)
@@ -969,6 +969,51 @@ def list_comp(E, e, fr, lazy=False):
     if isinstance(e.elt, ast.Name) and isinstance(g.target, ast.Name) and e.elt.id == g.target.id:
         res.tag = sq.tag            # identity comprehension keeps the provenance of the sequence
     return E.new_list(res)
+
+
+def abstract_filtered_comp(E, e, g, fr, sq, elem, saved):
+    """[elt for x in seq if cond] over a sequence of ANY length with a filter that is not always true: the result is the
+    subsequence selected by a strictly increasing index function SEL (uninterpreted) of some length m <= len(seq):
+        result[j] = elt(seq[SEL(j)]),  cond(seq[SEL(j)]),  0 <= SEL(j) < len(seq),  SEL(j) < SEL(j+1)
+    Such SEL, m exist for every concrete sequence (the positions the filter accepts), and only instances of these facts are
+    used, so this is a sound abstraction; that SEL hits EVERY accepted position is not stated (not needed by the units that
+    use it: their specifications are written over the selected subsequence).  The view is exposed in E.ghost['filtered']"""
+    m = E.fresh_int('nsel')
+    SEL = z3.Function(E.fresh_name('SEL'), z3.IntSort(), z3.IntSort())
+    E.fact(z3.And(m >= 0, m <= sq.n))
+
+    def sel_facts(j):
+        j = I(j)
+        i = SEL(j)
+        fs = [z3.Implies(z3.And(j >= 0, j < m), z3.And(i >= 0, i < sq.n)), z3.Implies(z3.And(j >= 0, j + 1 < m), SEL(j) < SEL(j + 1))]
+        sv = dict(fr.locals)
+        E.assign(g.target, elem(i), fr)
+        saved_fork = E.no_fork
+        E.no_fork = True
+        try:
+            for cond in g.ifs:
+                fs.append(z3.Implies(z3.And(j >= 0, j < m), E.truth(E.eval(cond, fr))))
+        finally:
+            E.no_fork = saved_fork
+            _restore(fr, sv)
+        return fs
+
+    def at(j, g=g, e=e):
+        for f in sel_facts(j):
+            E.fact(f)
+        sv = dict(fr.locals)
+        E.assign(g.target, elem(SEL(I(j))), fr)
+        # the element expression is evaluated for an index inside the selection (outside it the term is never used)
+        pc_saved = list(E.pc), set(E._pc_ids), E.no_fork
+        E.fact(z3.And(I(j) >= 0, I(j) < m))
+        E.no_fork = True
+        try:
+            return E.eval(e.elt, fr)
+        finally:
+            E.pc, E._pc_ids, E.no_fork = pc_saved
+            _restore(fr, sv)
+    E.ghost['filtered'] = {'m': m, 'SEL': SEL, 'source': sq}
+    return E.new_list(VSeq('list', m, at))
 
 
 def filtered_seq(cands):
